@@ -111,7 +111,7 @@ Proof.
                          nth 0 fs [] = prox_of (op_c12 INR (fun p => p) other) c0 (nth 0 raw [])).
   { intros sp raw tab c0 T L V.
     destruct (@zcp_valid_request_returns nat nat_truthy mat [] (op_c12 INR (fun p => p) other) msub madd 3 sp tab E (IComputed raw) [] 0 1 [] T) as (fs & Hrun);
-      [lia | lia | exact L | left; reflexivity |].
+      [lia | exact L | left; reflexivity |].
     exists fs. split; [exact Hrun|].
     destruct (zcp_computed_not_updated nat_truthy [] (op_c12 INR (fun p => p) other) msub madd 3 sp E raw [] 0 1 [] fs 0 Hrun) as (c' & V' & X);
       [rewrite L; lia | right; reflexivity |].
